@@ -122,3 +122,476 @@ Proof.
   - replace (N.max pb 0) with pb by lia. rewrite N.eqb_refl. unfold stepB. rewrite add_cut_1. reflexivity.
   - reflexivity.
 Qed.
+
+(** ** sums over the remaining levels *)
+Fixpoint sum_gt (pi : N) (rem : list (N * N)) : N :=
+  match rem with [] => 0 | e :: t => (if pi <? fst e then snd e else 0) + sum_gt pi t end.
+Fixpoint sum_ge (pi : N) (rem : list (N * N)) : N :=
+  match rem with [] => 0 | e :: t => (if pi <=? fst e then snd e else 0) + sum_ge pi t end.
+Fixpoint sum_all (rem : list (N * N)) : N :=
+  match rem with [] => 0 | e :: t => snd e + sum_all t end.
+
+Definition Tgt (e : ent) (pi : N) : N := b_size (fst e) + sum_gt pi (snd e).
+Definition Tge (e : ent) (pi : N) : N := b_size (fst e) + sum_ge pi (snd e).
+Definition Ttot (e : ent) : N := b_size (fst e) + sum_all (snd e).
+Definition lr_gt (e : ent) (pi : N) : bool := b_lr (fst e) || (b_limit (fst e) <? Tgt e pi).
+Definition lr_tot (e : ent) : bool := b_lr (fst e) || (b_limit (fst e) <? Ttot e).
+
+(** the cut of class [eZ] made when its level of priority [pi] is reached *)
+Definition cutform (eZ eO : ent) (pi : N) : cut :=
+  {| c_size := Tgt eZ pi;
+     c_blockers := [(b_rq (fst eO), if lr_gt eO pi then None else Some (Tgt eO pi))] |}.
+
+Definition desc (rem : list (N * N)) : Prop := StronglySorted (fun a b => fst b < fst a) rem.
+Definition prios (e : ent) : list N := map fst (snd e).
+
+Record Einv (e : ent) : Prop := {
+  ei_desc : desc (snd e);
+  ei_pos : Forall (fun l => 0 < snd l) (snd e);
+  ei_lr : b_lr (fst e) = true -> snd e = [];
+  ei_size : b_lr (fst e) = false -> b_size (fst e) <= b_limit (fst e)
+}.
+
+Lemma sum_gt_zero : forall pi rem, Forall (fun l => fst l <= pi) rem -> sum_gt pi rem = 0.
+Proof.
+  intros pi rem H. induction H as [|l t Hl Ht IH]; [reflexivity|]. cbn [sum_gt]. rewrite IH.
+  destruct (N.ltb_spec pi (fst l)); lia.
+Qed.
+Lemma sum_ge_zero : forall pi rem, Forall (fun l => fst l < pi) rem -> sum_ge pi rem = 0.
+Proof.
+  intros pi rem H. induction H as [|l t Hl Ht IH]; [reflexivity|]. cbn [sum_ge]. rewrite IH.
+  destruct (N.leb_spec pi (fst l)); lia.
+Qed.
+Lemma sum_gt_all : forall pi rem, Forall (fun l => pi < fst l) rem -> sum_gt pi rem = sum_all rem.
+Proof.
+  intros pi rem H. induction H as [|l t Hl Ht IH]; [reflexivity|]. cbn [sum_gt sum_all]. rewrite IH.
+  destruct (N.ltb_spec pi (fst l)); lia.
+Qed.
+Lemma sum_gt_le_all : forall pi rem, sum_gt pi rem <= sum_all rem.
+Proof. intros pi rem. induction rem as [|l t IH]; cbn [sum_gt sum_all]; [lia|]. destruct (pi <? fst l); lia. Qed.
+Lemma sum_ge_le_all : forall pi rem, sum_ge pi rem <= sum_all rem.
+Proof. intros pi rem. induction rem as [|l t IH]; cbn [sum_ge sum_all]; [lia|]. destruct (pi <=? fst l); lia. Qed.
+Lemma sum_gt_le_ge : forall pi rem, sum_gt pi rem <= sum_ge pi rem.
+Proof.
+  intros pi rem. induction rem as [|l t IH]; cbn [sum_gt sum_ge]; [lia|].
+  destruct (N.ltb_spec pi (fst l)); destruct (N.leb_spec pi (fst l)); lia.
+Qed.
+(** levels above [q] include the levels from [p] on when [q < p] *)
+Lemma sum_ge_le_gt : forall p q rem, q < p -> sum_ge p rem <= sum_gt q rem.
+Proof.
+  intros p q rem Hq. induction rem as [|l t IH]; cbn [sum_gt sum_ge]; [lia|].
+  destruct (N.ltb_spec q (fst l)); destruct (N.leb_spec p (fst l)); lia.
+Qed.
+Lemma sum_gt_mono : forall p q rem, q <= p -> sum_gt p rem <= sum_gt q rem.
+Proof.
+  intros p q rem Hq. induction rem as [|l t IH]; cbn [sum_gt]; [lia|].
+  destruct (N.ltb_spec q (fst l)); destruct (N.ltb_spec p (fst l)); lia.
+Qed.
+
+Lemma desc_tail : forall l t, desc (l :: t) -> desc t /\ Forall (fun x => fst x < fst l) t.
+Proof. intros l t H. inversion H; subst. split; assumption. Qed.
+
+Lemma desc_le_head : forall l t, desc (l :: t) -> Forall (fun x => fst x <= fst l) (l :: t).
+Proof.
+  intros l t H. destruct (desc_tail l t H) as [_ Hf]. constructor; [lia|].
+  eapply Forall_impl; [|exact Hf]. cbv beta. intros; lia.
+Qed.
+
+(** ** [advance_one] and the sums *)
+Lemma Einv_advance : forall e, Einv e -> Einv (advance_one e).
+Proof.
+  intros [b [|[p sz] t]] H; [exact H|]. rewrite advance_cons.
+  destruct H as [Hd Hp Hl Hs]. cbn [fst snd] in *.
+  assert (Hlr : b_lr b = false) by (destruct (b_lr b); [specialize (Hl eq_refl); discriminate|reflexivity]).
+  destruct (N.ltb_spec (b_limit b) (b_size b + sz)).
+  - split; cbn [fst snd set_size b_lr b_size b_limit]; try constructor; intros; try discriminate; reflexivity.
+  - split; cbn [fst snd set_size b_lr b_size b_limit].
+    + apply (desc_tail _ _ Hd).
+    + inversion Hp; assumption.
+    + rewrite Hlr. discriminate.
+    + intros _. assumption.
+Qed.
+
+Lemma Einv_num : forall e e', Einv e -> b_size (fst e') = b_size (fst e) -> b_lr (fst e') = b_lr (fst e) ->
+  b_limit (fst e') = b_limit (fst e) -> snd e' = snd e -> Einv e'.
+Proof. intros e e' [Hd Hp Hl Hs] E1 E2 E3 E4. split; rewrite ?E1, ?E2, ?E3, ?E4; assumption. Qed.
+
+Lemma Einv_with_cut : forall e o, Einv e -> Einv (with_cut e o).
+Proof. intros e o H. eapply Einv_num; [exact H|apply with_cut_size|apply with_cut_lr|apply with_cut_limit|apply with_cut_rem]. Qed.
+Lemma Einv_with_blk : forall e, Einv e -> Einv (with_blk e).
+Proof. intros e H. eapply Einv_num; [exact H|apply with_blk_size|apply with_blk_lr|apply with_blk_limit|apply with_blk_rem]. Qed.
+
+Lemma Einv_lr_false : forall b l t, Einv (b, l :: t) -> b_lr b = false.
+Proof. intros b l t H. destruct (b_lr b) eqn:E; [|reflexivity]. pose proof (ei_lr _ H E) as H0. discriminate. Qed.
+
+(** after consuming the head (priority [p]) nothing changes below [p] - unless the limit was hit, and
+    then the class counts as unbounded before and after *)
+Lemma advance_below : forall b p sz t pi, Einv (b, (p, sz) :: t) -> pi < p ->
+  lr_gt (advance_one (b, (p, sz) :: t)) pi = lr_gt (b, (p, sz) :: t) pi
+  /\ (lr_gt (b, (p, sz) :: t) pi = false -> Tgt (advance_one (b, (p, sz) :: t)) pi = Tgt (b, (p, sz) :: t) pi).
+Proof.
+  intros b p sz t pi H Hpi. pose proof (Einv_lr_false _ _ _ H) as Hlr. rewrite advance_cons.
+  unfold lr_gt, Tgt. cbn [fst snd sum_gt]. destruct (N.ltb_spec pi p) as [_|]; [|lia]. rewrite Hlr.
+  destruct (N.ltb_spec (b_limit b) (b_size b + sz)) as [Hhit|Hno]; cbn [fst snd set_size b_lr b_size b_limit sum_gt].
+  - split.
+    + cbn [orb]. symmetry. apply N.ltb_lt. lia.
+    + cbn [orb]. intros E. apply N.ltb_ge in E. lia.
+  - rewrite ?Hlr. cbn [orb]. split; [f_equal; lia|intros _; lia].
+Qed.
+
+Lemma advance_tot : forall b p sz t, Einv (b, (p, sz) :: t) ->
+  lr_tot (advance_one (b, (p, sz) :: t)) = lr_tot (b, (p, sz) :: t)
+  /\ (lr_tot (b, (p, sz) :: t) = false -> Ttot (advance_one (b, (p, sz) :: t)) = Ttot (b, (p, sz) :: t))
+  /\ (b_lr (fst (advance_one (b, (p, sz) :: t))) = true -> b_size (fst (advance_one (b, (p, sz) :: t))) = b_limit b)
+  /\ b_size b <= b_size (fst (advance_one (b, (p, sz) :: t))).
+Proof.
+  intros b p sz t H. pose proof (Einv_lr_false _ _ _ H) as Hlr. pose proof (ei_size _ H Hlr) as Hsz. cbn [fst] in Hsz.
+  rewrite advance_cons. unfold lr_tot, Ttot. cbn [fst snd sum_all]. rewrite Hlr.
+  destruct (N.ltb_spec (b_limit b) (b_size b + sz)) as [Hhit|Hno]; cbn [fst snd set_size b_lr b_size b_limit sum_all].
+  - cbn [orb]. split; [symmetry; apply N.ltb_lt; lia|]. split; [intros E; apply N.ltb_ge in E; lia|]. split; [reflexivity|lia].
+  - rewrite ?Hlr. cbn [orb]. split; [f_equal; lia|]. split; [intros _; lia|]. split; [discriminate|lia].
+Qed.
+
+(** ** entries that differ in cuts / blocked flag only *)
+Definition numeq (e e' : ent) : Prop :=
+  b_size (fst e') = b_size (fst e) /\ b_lr (fst e') = b_lr (fst e) /\ b_limit (fst e') = b_limit (fst e)
+  /\ b_rq (fst e') = b_rq (fst e) /\ snd e' = snd e.
+
+Lemma numeq_refl : forall e, numeq e e.
+Proof. intros e. repeat split. Qed.
+Lemma numeq_with_cut : forall e o, numeq e (with_cut e o).
+Proof. intros e o. repeat split; [apply with_cut_size|apply with_cut_lr|apply with_cut_limit|apply with_cut_rq|apply with_cut_rem]. Qed.
+Lemma numeq_with_blk : forall e, numeq e (with_blk e).
+Proof. intros e. repeat split; [apply with_blk_size|apply with_blk_lr|apply with_blk_limit|apply with_blk_rq|apply with_blk_rem]. Qed.
+Lemma numeq_trans : forall a b c, numeq a b -> numeq b c -> numeq a c.
+Proof. intros a b c (A1 & A2 & A3 & A4 & A5) (B1 & B2 & B3 & B4 & B5). repeat split; congruence. Qed.
+
+Lemma numeq_Tgt : forall e e' pi, numeq e e' -> Tgt e' pi = Tgt e pi.
+Proof. intros e e' pi (A1 & A2 & A3 & A4 & A5). unfold Tgt. rewrite A1, A5. reflexivity. Qed.
+Lemma numeq_Tge : forall e e' pi, numeq e e' -> Tge e' pi = Tge e pi.
+Proof. intros e e' pi (A1 & A2 & A3 & A4 & A5). unfold Tge. rewrite A1, A5. reflexivity. Qed.
+Lemma numeq_Ttot : forall e e', numeq e e' -> Ttot e' = Ttot e.
+Proof. intros e e' (A1 & A2 & A3 & A4 & A5). unfold Ttot. rewrite A1, A5. reflexivity. Qed.
+Lemma numeq_lr_gt : forall e e' pi, numeq e e' -> lr_gt e' pi = lr_gt e pi.
+Proof. intros e e' pi H. pose proof (numeq_Tgt e e' pi H) as HT. destruct H as (A1 & A2 & A3 & A4 & A5). unfold lr_gt. rewrite A2, A3, HT. reflexivity. Qed.
+Lemma numeq_lr_tot : forall e e', numeq e e' -> lr_tot e' = lr_tot e.
+Proof. intros e e' H. pose proof (numeq_Ttot e e' H) as HT. destruct H as (A1 & A2 & A3 & A4 & A5). unfold lr_tot. rewrite A2, A3, HT. reflexivity. Qed.
+Lemma numeq_prios : forall e e', numeq e e' -> prios e' = prios e.
+Proof. intros e e' (A1 & A2 & A3 & A4 & A5). unfold prios. rewrite A5. reflexivity. Qed.
+Lemma numeq_Einv : forall e e', numeq e e' -> Einv e -> Einv e'.
+Proof. intros e e' (A1 & A2 & A3 & A4 & A5) H. eapply Einv_num; eassumption. Qed.
+Lemma numeq_hi : forall e e', numeq e e' -> hi (fst e') = hi (fst e).
+Proof. intros e e' (A1 & A2 & A3 & A4 & A5). unfold hi. rewrite A1, A2. reflexivity. Qed.
+Lemma numeq_blocker : forall e e', numeq e e' -> blocker_of (fst e') = blocker_of (fst e).
+Proof. intros e e' (A1 & A2 & A3 & A4 & A5). unfold blocker_of. rewrite A1, A2, A4. reflexivity. Qed.
+
+Lemma cutform_eq : forall e o e1 o1 pi,
+  Tgt e1 pi = Tgt e pi -> b_rq (fst o1) = b_rq (fst o) -> lr_gt o1 pi = lr_gt o pi ->
+  (lr_gt o pi = false -> Tgt o1 pi = Tgt o pi) -> cutform e1 o1 pi = cutform e o pi.
+Proof.
+  intros e o e1 o1 pi H1 H2 H3 H4. unfold cutform. rewrite H1, H2, H3.
+  destruct (lr_gt o pi); [reflexivity|]. rewrite (H4 eq_refl). reflexivity.
+Qed.
+
+Lemma cutform_numeq : forall e o e1 o1 pi, numeq e e1 -> numeq o o1 -> cutform e1 o1 pi = cutform e o pi.
+Proof.
+  intros e o e1 o1 pi He Ho. apply cutform_eq.
+  - apply numeq_Tgt; assumption.
+  - apply Ho.
+  - apply numeq_lr_gt; assumption.
+  - intros _. apply numeq_Tgt; assumption.
+Qed.
+
+(** the cut made now is the cut of the head level *)
+Lemma cut_now_form : forall e o p, Einv o ->
+  Forall (fun l => fst l <= p) (snd e) -> Forall (fun l => fst l <= p) (snd o) ->
+  cut_now e o = cutform e o p.
+Proof.
+  intros e o p Ho He Hoo. unfold cut_now, cutform, blocker_of, lr_gt, Tgt.
+  rewrite (sum_gt_zero _ _ He), (sum_gt_zero _ _ Hoo). rewrite !N.add_0_r.
+  destruct (b_lr (fst o)) eqn:E; cbn [orb]; [reflexivity|].
+  pose proof (ei_size _ Ho E). destruct (N.ltb_spec (b_limit (fst o)) (b_size (fst o))); [lia|reflexivity].
+Qed.
+
+(** a decorated copy of [e] is consumed: what holds for the other class below the head ... *)
+Lemma adv_other : forall e ed p sz t pi, numeq e ed -> Einv e -> snd e = (p, sz) :: t -> pi < p ->
+  b_rq (fst (advance_one ed)) = b_rq (fst e)
+  /\ lr_gt (advance_one ed) pi = lr_gt e pi
+  /\ (lr_gt e pi = false -> Tgt (advance_one ed) pi = Tgt e pi).
+Proof.
+  intros e [bd rd] p sz t pi Hn He Hs Hpi. pose proof (numeq_Einv _ _ Hn He) as Hed.
+  assert (Hrd : rd = (p, sz) :: t) by (destruct Hn as (_ & _ & _ & _ & A5); cbn [snd] in A5; congruence). subst rd.
+  destruct (advance_below bd p sz t pi Hed Hpi) as [H1 H2].
+  split; [rewrite advance_rq; apply Hn|]. split.
+  - rewrite H1. apply numeq_lr_gt. assumption.
+  - intros E. rewrite H2; [apply numeq_Tgt; assumption|]. rewrite (numeq_lr_gt _ _ pi Hn). assumption.
+Qed.
+
+(** ... and for the class itself on its remaining levels *)
+Lemma adv_self : forall e ed p sz t pi, numeq e ed -> Einv e -> snd e = (p, sz) :: t ->
+  In pi (prios (advance_one ed)) ->
+  pi < p /\ In pi (map fst t) /\ Tgt (advance_one ed) pi = Tgt e pi /\ snd (advance_one ed) = t.
+Proof.
+  intros e [bd rd] p sz t pi Hn He Hs Hin. pose proof (numeq_Einv _ _ Hn He) as Hed.
+  assert (Hrd : rd = (p, sz) :: t) by (destruct Hn as (_ & _ & _ & _ & A5); cbn [snd] in A5; congruence). subst rd.
+  pose proof (Einv_lr_false _ _ _ Hed) as Hlr.
+  unfold prios in Hin. rewrite advance_cons in Hin |- *.
+  destruct (N.ltb_spec (b_limit bd) (b_size bd + sz)) as [Hhit|Hno]; cbn [snd map] in Hin; [contradiction|].
+  destruct (desc_tail _ _ (ei_desc _ Hed)) as [_ Hlt]. cbn [fst] in Hlt.
+  assert (Hpi : pi < p).
+  { apply in_map_iff in Hin. destruct Hin as (l & <- & Hl). rewrite Forall_forall in Hlt. apply (Hlt l Hl). }
+  split; [assumption|]. split; [assumption|]. split; [|reflexivity].
+  rewrite <- (numeq_Tgt _ _ pi Hn). unfold Tgt. cbn [fst snd set_size b_size sum_gt].
+  destruct (N.ltb_spec pi p); lia.
+Qed.
+
+Definition le_size (c c' : cut) : Prop := c_size c <= c_size c'.
+
+(** what the loop makes of entry [e] next to [o] *)
+Record PostZ (e o e' : ent) : Prop := {
+  pz_rem : snd e' = [];
+  pz_rq : b_rq (fst e') = b_rq (fst e);
+  pz_limit : b_limit (fst e') = b_limit (fst e);
+  pz_lr : b_lr (fst e') = lr_tot e;
+  pz_size_tot : lr_tot e = false -> b_size (fst e') = Ttot e;
+  pz_size_lim : b_lr (fst e) = false -> lr_tot e = true -> b_size (fst e') = b_limit (fst e);
+  pz_size_keep : b_lr (fst e) = true -> b_size (fst e') = b_size (fst e);
+  pz_cuts : exists l, b_cuts (fst e') = b_cuts (fst e) ++ l /\ (length l <= length (snd e))%nat
+            /\ Forall (fun c => b_size (fst e) <= c_size c) l /\ StronglySorted le_size l
+            /\ forall c, In c l -> exists pi, In pi (prios e) /\ c = cutform e o pi
+}.
+
+Lemma PostZ_done : forall e o, Einv e -> snd e = [] -> PostZ e o e.
+Proof.
+  intros e o He Hs.
+  assert (Hlt : lr_tot e = b_lr (fst e)).
+  { unfold lr_tot, Ttot. rewrite Hs. cbn [sum_all]. destruct (b_lr (fst e)) eqn:E; [reflexivity|].
+    pose proof (ei_size _ He E). cbn [orb]. apply N.ltb_ge. lia. }
+  split; try reflexivity; try assumption.
+  - symmetry. assumption.
+  - intros _. unfold Ttot. rewrite Hs. cbn [sum_all]. lia.
+  - intros E1 E2. congruence.
+  - exists []. rewrite app_nil_r. repeat split; try constructor. cbn. lia. intros c [].
+Qed.
+
+(** the entry is not consumed in this iteration *)
+Lemma PostZ_keep : forall e o e1 o1 e', numeq e e1 -> b_cuts (fst e1) = b_cuts (fst e) ->
+  (forall pi, In pi (prios e) -> cutform e1 o1 pi = cutform e o pi) ->
+  PostZ e1 o1 e' -> PostZ e o e'.
+Proof.
+  intros e o e1 o1 e' Hn Hc Hcf [P1 P2 P3 P4 P5 P6 P7 (l & L1 & L2 & L3 & L4 & L5)].
+  pose proof Hn as (A1 & A2 & A3 & A4 & A5).
+  rewrite (numeq_lr_tot _ _ Hn) in *. rewrite (numeq_Ttot _ _ Hn) in *. rewrite A1, A2, A3, A4, A5, Hc in *.
+  split; try assumption.
+  exists l. repeat split; try assumption.
+  intros c Hin. destruct (L5 c Hin) as (pi & Hpi & ->). rewrite (numeq_prios _ _ Hn) in Hpi.
+  exists pi. split; [assumption|]. apply Hcf. assumption.
+Qed.
+
+(** the entry (decorated as [ed], with or without a new cut) is consumed *)
+Lemma PostZ_adv : forall e o ed o1 e' p sz t lc,
+  Einv e -> snd e = (p, sz) :: t -> numeq e ed ->
+  b_cuts (fst ed) = b_cuts (fst e) ++ lc -> (lc = [] \/ lc = [cutform e o p]) ->
+  (forall pi, In pi (prios (advance_one ed)) -> pi < p -> cutform (advance_one ed) o1 pi = cutform e o pi) ->
+  PostZ (advance_one ed) o1 e' -> PostZ e o e'.
+Proof.
+  intros e o [bd rd] o1 e' p sz t lc He Hs Hn Hc Hlc Hcf [P1 P2 P3 P4 P5 P6 P7 (l & L1 & L2 & L3 & L4 & L5)].
+  pose proof (numeq_Einv _ _ Hn He) as Hed.
+  pose proof Hn as (A1 & A2 & A3 & A4 & A5). cbn [fst snd] in A1, A2, A3, A4, A5.
+  rewrite Hs in A5. subst rd.
+  destruct (advance_tot bd p sz t Hed) as (T1 & T2 & T3 & T4).
+  pose proof (numeq_lr_tot _ _ Hn) as Elr. pose proof (numeq_Ttot _ _ Hn) as Etot.
+  pose proof (Einv_lr_false _ _ _ Hed) as Hlrd.
+  assert (Hlre : b_lr (fst e) = false) by congruence.
+  rewrite advance_rq in P2. rewrite advance_limit in P3. rewrite advance_cuts in L1. cbn [fst] in P2, P3, L1.
+  split.
+  - assumption.
+  - congruence.
+  - congruence.
+  - rewrite P4, T1. assumption.
+  - intros E. rewrite <- Elr in E. rewrite P5 by congruence. rewrite T2 by assumption. assumption.
+  - intros _ E. rewrite <- Elr in E. rewrite <- T1 in E.
+    destruct (b_lr (fst (advance_one (bd, (p, sz) :: t)))) eqn:Eb.
+    + rewrite (P7 eq_refl). rewrite (T3 eq_refl). exact A3.
+    + rewrite (P6 eq_refl E). rewrite advance_limit. exact A3.
+  - intros E. congruence.
+  - exists (lc ++ l). cbn [fst] in Hc. rewrite L1, Hc, app_assoc. split; [reflexivity|].
+    assert (Hlen : (length (snd (advance_one (bd, (p, sz) :: t))) <= length t)%nat).
+    { rewrite advance_cons. destruct (_ <? _); cbn [snd length]; lia. }
+    assert (Hsz : forall pi, Tgt e pi >= b_size (fst e)) by (intros; unfold Tgt; lia).
+    assert (Hcp : c_size (cutform e o p) = b_size (fst e)).
+    { unfold cutform, Tgt. cbn [c_size]. rewrite (sum_gt_zero p (snd e)); [lia|].
+      rewrite Hs. apply (desc_le_head (p, sz) t). rewrite <- Hs. apply (ei_desc _ He). }
+    assert (L3' : Forall (fun c => b_size (fst e) <= c_size c) l).
+    { eapply Forall_impl; [|exact L3]. cbv beta. intros c Hcz. lia. }
+    split; [|split; [|split]].
+    + rewrite app_length, Hs. cbn [length]. destruct Hlc as [->| ->]; cbn [length]; lia.
+    + apply Forall_app. split; [|assumption].
+      destruct Hlc as [->| ->]; constructor; [lia|constructor].
+    + destruct Hlc as [->| ->]; cbn [app]; [assumption|]. constructor; [assumption|].
+      eapply Forall_impl; [|exact L3']. cbv beta. intros c Hcz. unfold le_size. lia.
+    + intros c Hin. apply in_app_or in Hin. destruct Hin as [Hin|Hin].
+      * destruct Hlc as [->| ->]; [contradiction|]. destruct Hin as [<-|[]].
+        exists p. split; [|reflexivity]. unfold prios. rewrite Hs. left. reflexivity.
+      * destruct (L5 c Hin) as (pi & Hpi & ->).
+        destruct (adv_self e (bd, (p, sz) :: t) p sz t pi Hn He Hs Hpi) as (Q1 & Q2 & Q3 & Q4).
+        exists pi. split; [unfold prios; rewrite Hs; right; assumption|]. apply Hcf; assumption.
+Qed.
+
+(** the other class as seen from below priority [p]: unchanged *)
+Definition other_ok (o o1 : ent) (p : N) : Prop :=
+  b_rq (fst o1) = b_rq (fst o)
+  /\ forall pi, pi < p -> lr_gt o1 pi = lr_gt o pi /\ (lr_gt o pi = false -> Tgt o1 pi = Tgt o pi).
+
+Lemma other_ok_numeq : forall o o1 p, numeq o o1 -> other_ok o o1 p.
+Proof.
+  intros o o1 p H. split; [apply H|]. intros pi _. split; [apply numeq_lr_gt; assumption|intros _; apply numeq_Tgt; assumption].
+Qed.
+
+Lemma other_ok_adv : forall o od p p' sz t, numeq o od -> Einv o -> snd o = (p', sz) :: t -> p <= p' ->
+  other_ok o (advance_one od) p.
+Proof.
+  intros o od p p' sz t Hn Ho Hs Hp. split.
+  - rewrite advance_rq. apply Hn.
+  - intros pi Hpi. destruct (adv_other o od p' sz t pi Hn Ho Hs ltac:(lia)) as (_ & H2 & H3). split; assumption.
+Qed.
+
+Lemma post_consumed : forall e o ed o1 e' p sz t lc,
+  Einv e -> snd e = (p, sz) :: t -> numeq e ed ->
+  b_cuts (fst ed) = b_cuts (fst e) ++ lc -> (lc = [] \/ lc = [cutform e o p]) ->
+  other_ok o o1 p -> PostZ (advance_one ed) o1 e' -> PostZ e o e'.
+Proof.
+  intros e o ed o1 e' p sz t lc He Hs Hn Hc Hlc [Hrq Hok] HP.
+  eapply PostZ_adv; try eassumption.
+  intros pi Hin Hpi. destruct (adv_self e ed p sz t pi Hn He Hs Hin) as (_ & _ & Q3 & _).
+  destruct (Hok pi Hpi) as [K1 K2]. apply cutform_eq; assumption.
+Qed.
+
+Lemma post_kept : forall e o e1 o1 e' p,
+  numeq e e1 -> b_cuts (fst e1) = b_cuts (fst e) -> Forall (fun l => fst l < p) (snd e) ->
+  other_ok o o1 p -> PostZ e1 o1 e' -> PostZ e o e'.
+Proof.
+  intros e o e1 o1 e' p Hn Hc Hlt [Hrq Hok] HP. eapply PostZ_keep; try eassumption.
+  intros pi Hin. unfold prios in Hin. apply in_map_iff in Hin. destruct Hin as (l & <- & Hl).
+  rewrite Forall_forall in Hlt. destruct (Hok (fst l) (Hlt l Hl)) as [K1 K2].
+  apply cutform_eq; try assumption. apply numeq_Tgt. assumption.
+Qed.
+
+Lemma cut_now_numeq : forall e o e1 o1, numeq e e1 -> numeq o o1 -> cut_now e1 o1 = cut_now e o.
+Proof.
+  intros e o e1 o1 He Ho. unfold cut_now. rewrite (numeq_blocker _ _ Ho). destruct He as (A1 & _). rewrite A1. reflexivity.
+Qed.
+
+Lemma adv_len : forall e, (length (snd (advance_one e)) <= pred (length (snd e)))%nat.
+Proof. intros [b [|[p sz] t]]; [cbn; lia|]. rewrite advance_cons. destruct (_ <? _); cbn [snd length]; lia. Qed.
+
+Lemma lt_le_all : forall (rem : list (N * N)) p, Forall (fun l => fst l < p) rem -> Forall (fun l => fst l <= p) rem.
+Proof. intros rem p H. eapply Forall_impl; [|exact H]. cbv beta. intros; lia. Qed.
+
+(** the cuts of a decorated entry *)
+Lemma with_cut_lc : forall e o p, Einv o ->
+  Forall (fun l => fst l <= p) (snd e) -> Forall (fun l => fst l <= p) (snd o) ->
+  exists lc, b_cuts (fst (with_cut e o)) = b_cuts (fst e) ++ lc /\ (lc = [] \/ lc = [cutform e o p]).
+Proof.
+  intros e o p Ho He Hoo. rewrite with_cut_cuts. destruct (hi (fst o)).
+  - exists [cut_now e o]. split; [reflexivity|right]. rewrite (cut_now_form e o p) by assumption. reflexivity.
+  - exists []. split; [reflexivity|left; reflexivity].
+Qed.
+
+Theorem merge2_post : forall f eA eB u, Einv eA -> Einv eB -> (length (snd eA) + length (snd eB) < f)%nat ->
+  exists eA' eB', merge_loop f [eA; eB] u = [eA'; eB'] /\ PostZ eA eB eA' /\ PostZ eB eA eB'.
+Proof.
+  induction f as [|f IH]; intros eA eB u HA HB Hlen; [lia|].
+  rewrite merge2_step.
+  destruct eA as [bA rA] eqn:EeA. destruct eB as [bB rB] eqn:EeB. rewrite <- EeA, <- EeB in *.
+  assert (HsA : snd eA = rA) by (rewrite EeA; reflexivity). assert (HsB : snd eB = rB) by (rewrite EeB; reflexivity).
+  (* the three kinds of iteration *)
+  assert (StepA : forall pa sa ta, rA = (pa, sa) :: ta -> Forall (fun l => fst l < pa) rB ->
+            exists eA' eB', stepA f eA eB u = [eA'; eB'] /\ PostZ eA eB eA' /\ PostZ eB eA eB').
+  { intros pa sa ta ErA HltB. rewrite ErA in HsA.
+    pose proof (desc_le_head _ _ ltac:(rewrite <- HsA; apply (ei_desc _ HA))) as HleA. rewrite <- HsA in HleA.
+    pose proof (lt_le_all _ _ HltB) as HleB. rewrite <- HsB in HleB, HltB.
+    unfold stepA. destruct (match u with Some u0 => Nat.eqb u0 0 | None => false end).
+    - destruct (IH (advance_one eA) eB u (Einv_advance _ HA) HB) as (eA' & eB' & E & PA & PB).
+      { pose proof (adv_len eA). rewrite HsA in *. cbn [length] in *. lia. }
+      exists eA', eB'. split; [exact E|]. split.
+      + eapply (post_consumed eA eB eA eB eA' pa sa ta []); try eassumption.
+        * apply numeq_refl. * rewrite app_nil_r. reflexivity. * left. reflexivity. * apply other_ok_numeq, numeq_refl.
+      + eapply (post_kept eB eA eB (advance_one eA) eB' pa); try eassumption.
+        * apply numeq_refl. * reflexivity. * eapply other_ok_adv; [apply numeq_refl|assumption|eassumption|lia].
+    - destruct (IH (advance_one (with_cut eA eB)) (with_blk eB) (Some 0%nat)
+                  (Einv_advance _ (Einv_with_cut _ _ HA)) (Einv_with_blk _ HB)) as (eA' & eB' & E & PA & PB).
+      { pose proof (adv_len (with_cut eA eB)). rewrite with_cut_rem, with_blk_rem in *. rewrite HsA in *. cbn [length] in *. lia. }
+      exists eA', eB'. split; [exact E|]. split.
+      + destruct (with_cut_lc eA eB pa HB HleA HleB) as (lc & Hlc1 & Hlc2).
+        eapply (post_consumed eA eB (with_cut eA eB) (with_blk eB) eA' pa sa ta lc); try eassumption.
+        * apply numeq_with_cut. * apply other_ok_numeq, numeq_with_blk.
+      + eapply (post_kept eB eA (with_blk eB) (advance_one (with_cut eA eB)) eB' pa); try eassumption.
+        * apply numeq_with_blk. * apply with_blk_cuts.
+        * eapply other_ok_adv; [apply numeq_with_cut|assumption|eassumption|lia]. }
+  assert (StepB : forall pb sb tb, rB = (pb, sb) :: tb -> Forall (fun l => fst l < pb) rA ->
+            exists eA' eB', stepB f eA eB u = [eA'; eB'] /\ PostZ eA eB eA' /\ PostZ eB eA eB').
+  { intros pb sb tb ErB HltA. rewrite ErB in HsB.
+    pose proof (desc_le_head _ _ ltac:(rewrite <- HsB; apply (ei_desc _ HB))) as HleB. rewrite <- HsB in HleB.
+    pose proof (lt_le_all _ _ HltA) as HleA. rewrite <- HsA in HleA, HltA.
+    unfold stepB. destruct (match u with Some u0 => Nat.eqb u0 1 | None => false end).
+    - destruct (IH eA (advance_one eB) u HA (Einv_advance _ HB)) as (eA' & eB' & E & PA & PB).
+      { pose proof (adv_len eB). rewrite HsB in *. cbn [length] in *. lia. }
+      exists eA', eB'. split; [exact E|]. split.
+      + eapply (post_kept eA eB eA (advance_one eB) eA' pb); try eassumption.
+        * apply numeq_refl. * reflexivity. * eapply other_ok_adv; [apply numeq_refl|assumption|eassumption|lia].
+      + eapply (post_consumed eB eA eB eA eB' pb sb tb []); try eassumption.
+        * apply numeq_refl. * rewrite app_nil_r. reflexivity. * left. reflexivity. * apply other_ok_numeq, numeq_refl.
+    - destruct (IH (with_blk eA) (advance_one (with_cut eB eA)) (Some 1%nat)
+                  (Einv_with_blk _ HA) (Einv_advance _ (Einv_with_cut _ _ HB))) as (eA' & eB' & E & PA & PB).
+      { pose proof (adv_len (with_cut eB eA)). rewrite with_cut_rem, with_blk_rem in *. rewrite HsB in *. cbn [length] in *. lia. }
+      exists eA', eB'. split; [exact E|]. split.
+      + eapply (post_kept eA eB (with_blk eA) (advance_one (with_cut eB eA)) eA' pb); try eassumption.
+        * apply numeq_with_blk. * apply with_blk_cuts.
+        * eapply other_ok_adv; [apply numeq_with_cut|assumption|eassumption|lia].
+      + destruct (with_cut_lc eB eA pb HA HleB HleA) as (lc & Hlc1 & Hlc2).
+        eapply (post_consumed eB eA (with_cut eB eA) (with_blk eA) eB' pb sb tb lc); try eassumption.
+        * apply numeq_with_cut. * apply other_ok_numeq, numeq_with_blk. }
+  assert (StepT : forall p sa ta sb tb, rA = (p, sa) :: ta -> rB = (p, sb) :: tb ->
+            exists eA' eB', stepT f eA eB = [eA'; eB'] /\ PostZ eA eB eA' /\ PostZ eB eA eB').
+  { intros p sa ta sb tb ErA ErB. rewrite ErA in HsA. rewrite ErB in HsB.
+    pose proof (desc_le_head _ _ ltac:(rewrite <- HsA; apply (ei_desc _ HA))) as HleA. rewrite <- HsA in HleA.
+    pose proof (desc_le_head _ _ ltac:(rewrite <- HsB; apply (ei_desc _ HB))) as HleB. rewrite <- HsB in HleB.
+    cbn [fst] in HleA, HleB.
+    set (dA := with_blk (with_cut eA eB)). set (dB := with_cut (with_blk eB) (with_cut eA eB)).
+    assert (NA : numeq eA dA) by (eapply numeq_trans; [apply numeq_with_cut|apply numeq_with_blk]).
+    assert (NB : numeq eB dB) by (eapply numeq_trans; [apply numeq_with_blk|apply numeq_with_cut]).
+    unfold stepT. fold dA dB.
+    destruct (IH (advance_one dA) (advance_one dB) None
+                (Einv_advance _ (numeq_Einv _ _ NA HA)) (Einv_advance _ (numeq_Einv _ _ NB HB))) as (eA' & eB' & E & PA & PB).
+    { pose proof (adv_len dA). pose proof (adv_len dB).
+      destruct NA as (_ & _ & _ & _ & NA5). destruct NB as (_ & _ & _ & _ & NB5). rewrite NA5, NB5 in *.
+      rewrite HsA, HsB in *. cbn [length] in *. lia. }
+    exists eA', eB'. split; [exact E|]. split.
+    - destruct (with_cut_lc eA eB p HB HleA HleB) as (lc & Hlc1 & Hlc2).
+      eapply (post_consumed eA eB dA (advance_one dB) eA' p sa ta lc); try eassumption.
+      + unfold dA. rewrite with_blk_cuts. assumption.
+      + eapply other_ok_adv; [exact NB|assumption|eassumption|lia].
+    - assert (Hc : exists lc, b_cuts (fst dB) = b_cuts (fst eB) ++ lc /\ (lc = [] \/ lc = [cutform eB eA p])).
+      { unfold dB. rewrite with_cut_cuts, with_blk_cuts, with_cut_hi.
+        rewrite (cut_now_numeq eB eA (with_blk eB) (with_cut eA eB) (numeq_with_blk _) (numeq_with_cut _ _)).
+        destruct (hi (fst eA)).
+        - exists [cut_now eB eA]. split; [reflexivity|right]. rewrite (cut_now_form eB eA p) by assumption. reflexivity.
+        - exists []. split; [reflexivity|left; reflexivity]. }
+      destruct Hc as (lc & Hlc1 & Hlc2).
+      eapply (post_consumed eB eA dB (advance_one dA) eB' p sb tb lc); try eassumption.
+      eapply other_ok_adv; [exact NA|assumption|eassumption|lia]. }
+  (* dispatch on the heads *)
+  unfold head_prio. rewrite HsA, HsB.
+  destruct rA as [|[pa sa] ta]; destruct rB as [|[pb sb] tb].
+  - exists eA, eB. split; [reflexivity|]. split; apply PostZ_done; assumption.
+  - apply (StepB pb sb tb eq_refl). constructor.
+  - apply (StepA pa sa ta eq_refl). constructor.
+  - pose proof (desc_le_head _ _ ltac:(rewrite <- HsA; apply (ei_desc _ HA))) as HleA.
+    pose proof (desc_le_head _ _ ltac:(rewrite <- HsB; apply (ei_desc _ HB))) as HleB. cbn [fst] in HleA, HleB.
+    destruct (N.ltb_spec pb pa) as [H1|H1]; [|destruct (N.ltb_spec pa pb) as [H2|H2]].
+    + apply (StepA pa sa ta eq_refl). eapply Forall_impl; [|exact HleB]. cbv beta. intros; lia.
+    + apply (StepB pb sb tb eq_refl). eapply Forall_impl; [|exact HleA]. cbv beta. intros; lia.
+    + assert (pa = pb) by lia. subst pb. apply (StepT pa sa ta sb tb eq_refl eq_refl).
+Qed.
+
